@@ -78,6 +78,12 @@ where
     U: User,
     E: Engine<U>,
 {
+    // A compound object that is itself a logic term (the payload of `Some(term)`, or a typed
+    // compound variable) has no children of its own: unify the terms.
+    if let (Some(uterm), Some(vterm)) = (ucompound.as_term(), vcompound.as_term()) {
+        return unify_rec(state, extension, uterm, vterm);
+    }
+
     if ucompound.type_id() != vcompound.type_id() {
         return Err(());
     }
